@@ -224,11 +224,74 @@ def probe_step(order, z, dt=0.5):
     return {"ok": bool(err <= 1e-7), "rel_err": float(err), "got": got, "expected": want}
 
 
-PROBES = {"phi": probe_phi, "order": probe_order, "order0": probe_order0, "step": probe_step}
+def probe_stepper_order(name, D, N, order, seed):
+    """a public stepper constructed with `order=p` takes the Cox–Matthews ETDRK-p step (p = 0: pure linear propagation) of
+    ITS OWN linear operator and nonlinear term, with exact φ functions — for every family (specific, general, normalized,
+    difficulty): the requested order must reach the integrator"""
+    import jax.numpy as jnp
+    from exponax import spectral as sp
+    from . import steppers as S
+    rng = np.random.default_rng(seed)
+    spec = S.registry()[name](rng, D, N, order)
+    if spec is None:
+        return {"ok": True, "skipped": "dimension"}
+    st = spec.build()
+    dop = sp.build_derivative_operator(D, st.domain_extent, N)
+    lin = np.asarray(st._build_linear_operator(dop)).astype(complex)
+    nl = st._build_nonlinear_fun(dop)
+    dt = float(st.dt)
+    u = S.random_state(rng, spec.C, D, N, "smooth")
+    uh = np.asarray(sp.fft(jnp.asarray(u)))
+    Nf = lambda v: np.asarray(nl(jnp.asarray(v)))   # noqa: E731
+    z = dt * np.broadcast_to(lin, uh.shape)
+    if float(np.max(z.real)) > 20:
+        return {"ok": True, "skipped": "growth"}
+    ph = np.vectorize(lambda w: tuple(complex(x) for x in phi_ref(w)), otypes=[complex, complex, complex])
+    p1, p2, p3 = ph(z)
+    h1 = ph(z / 2)[0] / 2
+    E, Eh = np.exp(z), np.exp(z / 2)
+    if order == 0:
+        want = E * uh
+    elif order == 1:
+        want = E * uh + dt * p1 * Nf(uh)
+    elif order == 2:
+        a = E * uh + dt * p1 * Nf(uh)
+        want = a + dt * p2 * (Nf(a) - Nf(uh))
+    elif order == 3:
+        a = Eh * uh + dt * h1 * Nf(uh)
+        b = E * uh + dt * p1 * (2 * Nf(a) - Nf(uh))
+        want = E * uh + dt * ((p1 - 3 * p2 + 4 * p3) * Nf(uh) + (4 * p2 - 8 * p3) * Nf(a) + (4 * p3 - p2) * Nf(b))
+    else:
+        a = Eh * uh + dt * h1 * Nf(uh)
+        b = Eh * uh + dt * h1 * Nf(a)
+        c = Eh * a + dt * h1 * (2 * Nf(b) - Nf(uh))
+        want = E * uh + dt * ((p1 - 3 * p2 + 4 * p3) * Nf(uh) + 2 * (p2 - 2 * p3) * (Nf(a) + Nf(b)) + (4 * p3 - p2) * Nf(c))
+    got = np.asarray(st.step_fourier(jnp.asarray(uh)))
+    sc = float(np.max(np.abs(want))) + 1e-300
+    err = float(np.max(np.abs(got - want))) / sc
+    return {"ok": bool(err <= 1e-8), "rel_err": err, "requested_order": order, "kwargs": {k: str(v) for k, v in spec.kwargs.items()}}
+
+
+PROBES = {"phi": probe_phi, "order": probe_order, "order0": probe_order0, "step": probe_step, "stepper_order": probe_stepper_order}
 
 
 def oracle(ctx, deep):
     fails = []
+    from . import steppers as S
+    nonlinear = [n for n in S.registry().keys() if n not in S.LINEAR]
+    fixed = ["Burgers", "NormalizedConvectionStepper", "DifficultyConvectionStepper", "GeneralNonlinearStepper", "NormalizedGradientNormStepper",
+             "DifficultyPolynomialStepper", "KuramotoSivashinsky", "FisherKPP"]
+    names = nonlinear if deep else [n for n in fixed if n in nonlinear] + [n for i, n in enumerate(nonlinear) if (i + ctx.seed) % 5 == 0]
+    for i, name in enumerate(dict.fromkeys(names)):
+        D = 2 if "Vorticity" in name else (3 if "Velocity" in name else 1)
+        N = {1: 12, 2: 6, 3: 5}[D]
+        for order in ([0, 1, 2, 3, 4] if deep or name in fixed else [(i + ctx.seed) % 5]):
+            r = probe_stepper_order(name, D, N, order, ctx.seed + i)
+            ctx.count(("oracle_stepper_order", name, order))
+            if not r["ok"]:
+                fails.append({"key": f"C02:stepper-order:{name}", "what": f"{name}(order={order}) does not take the Cox–Matthews ETDRK{order} step of its own operator and nonlinear term (rel err {r['rel_err']:.2e})",
+                              "probe": "stepper_order", "args": {"name": name, "D": D, "N": N, "order": order, "seed": ctx.seed + i}, "observed": r})
+                break
     zs = [0.0, -1.0, 2.5, -40.0, -1e6, 1.0j, -3.0j, 30.0j, -2.0 + 5.0j, -1e3 + 1e3j, 1e-5, 0.5j]
     if deep:
         rng = np.random.default_rng(ctx.seed + 1)
